@@ -286,6 +286,20 @@ class Sym:
                     a, b = e1.get(k, ("unbound", k)), e2.get(k, ("unbound", k))
                     env[k] = a if a == b else mktry(a, exc, b)
                 continue
+            if isinstance(s, ast.For) and not s.orelse and self._literal_table(s.iter) is not None and any(isinstance(x, ast.Return) for x in ast.walk(s)) \
+                    and not any(isinstance(x, (ast.Continue, ast.Break, ast.Assign, ast.AugAssign, ast.For, ast.While)) for b in s.body for x in ast.walk(b)):
+                # search loop over a table written out in the source:  for types, convert in TABLE: if isinstance(v, types): return convert(v)
+                # is the sequence of its rounds, one per entry
+                okr = True
+                for elt in self._literal_table(s.iter):
+                    e_i = dict(env)
+                    self._bind(s.target, self.expr(elt, env, depth), e_i)
+                    if not self._run(list(s.body), e_i, depth, collect, guard):
+                        okr = False
+                        break
+                if not okr:
+                    return False
+                continue
             if isinstance(s, (ast.For,)):
                 # loops whose only effects are appends to lists and additions to accumulators, possibly under ifs / continue:
                 #   for v in L: X.append(f(v))        ==  X + [f(v) for v in L]
@@ -462,6 +476,19 @@ class Sym:
                 env[d] = ("loop", d, q)          # after a loop that is not understood the contents are unknown
             elif cur[0] not in ("loop", "filled"):
                 env[d] = ("filled", cur)         # inside the loop the object keeps its identity
+
+    def _literal_table(self, it):
+        """entries (AST) of a tuple / list written out in the source: given directly or through a module-level name of this
+        module that is assigned once; None otherwise or when it has more than 32 entries"""
+        node = it
+        if isinstance(it, ast.Name):
+            r = self.prog.resolve_name(self.fi.module, it.id)
+            if not (r and r[0] == "const" and (len(r) < 3 or r[2] is self.fi.module)):
+                return None
+            node = r[1]
+        if isinstance(node, (ast.Tuple, ast.List)) and 0 < len(node.elts) <= 32 and not any(isinstance(e, ast.Starred) for e in node.elts):
+            return list(node.elts)
+        return None
 
     def _exit_cond(self, stmts, env):
         """condition under which the statements leave the enclosing block (return / raise / continue / break), None if they
@@ -743,6 +770,16 @@ class Sym:
                 return v
         if target is not None:
             return ("call", target.qual, args, kws)
+        if isinstance(c.func, ast.Name) and c.func.id in env and env[c.func.id][0] == "func" and env[c.func.id][1] in prog.functions:
+            # call of a package function held in a local (e.g. taken from a table entry)
+            tgt = prog.functions[env[c.func.id][1]]
+            if self.inline and depth < MAX_INLINE:
+                v = self._inline(tgt, c, args, kws, depth, None)
+                if v is not None:
+                    return v
+            return ("call", tgt.qual, args, kws)
+        if isinstance(c.func, ast.Name) and c.func.id in env and env[c.func.id][0] == "class":
+            return ("new", env[c.func.id][1], args, kws)
         if isinstance(c.func, ast.Name) and c.func.id in env and env[c.func.id][0] not in ("param", "name", "unbound"):
             # call of a callable held in a local:  cls = registry[key]; cls(a, b)
             return ("callv", env[c.func.id], args, kws)
